@@ -876,7 +876,9 @@ class ImpEqToMacro(Macro):
         # preds, concl = pt.prop.strip_implies()
         concl = Or(*args[:-1], pt.prop)
         assert concl == goal, "%s %s" % (concl, goal)
-        return Thm(concl)
+        # Only the hypotheses negated in the clause are discharged
+        disjs = [arg.arg if arg.is_not() else Not(arg) for arg in args[:-1]]
+        return Thm(concl, tuple(hyp for hyp in pt.hyps if hyp not in disjs))
     
     def get_proof_term(self, args, prevs):
         disjs = []
